@@ -47,6 +47,37 @@ def handoff_queue_fifo(ctx):
     ctx.floor("queue_operations", 2, "operations on drop_in_queue_ (the two producers' appends)")
 
 
+def tagged_dropins_all_erased(ctx):
+    """Shared by C13 and C14: Engine::removeDropInConfig erases EVERY drop-in ruleset that carries the tag from each base - a range erase
+    after remove_if, erase_if, or an erase loop.  One drop-in file can hold several rulesets that target the same base (compileDropIn emits
+    one per entry), so a single-element erase leaves the others active after the file was deleted or rewritten."""
+    P = ctx.prog
+    rm = ctx.fn1("Oomd::Engine::Engine::removeDropInConfig")
+    outer = loop_over(rm, "rulesets_")
+    if len(outer) != 1:
+        ctx.broken("remove:every-tagged-drop-in-erased", "anchor", rm.loc(), "expected one loop over rulesets_ in removeDropInConfig")
+        return
+    O = outer[0]
+    Xr = Expander(P, rm)
+    er = [i for i in rm.calls("erase") if "dropins" in rm.text(rm.nodes[i].get("recv", -1))]
+    ei = [i for i in rm.calls("erase_if", "std::erase_if") if rm.nodes[i].get("args") and "dropins" in rm.text(rm.nodes[i]["args"][0])]
+    if not er and not ei:
+        ctx.broken("remove:every-tagged-drop-in-erased", "anchor", rm.loc(), "no erase on a base's drop-in list found in removeDropInConfig")
+        return
+    for i in ei:
+        ctx.ok("remove:every-tagged-drop-in-erased", "value-shape", rm.loc(i), "erase_if removes every drop-in carrying the tag")
+    for i in er:
+        a = rm.nodes[i].get("args", [])
+        inner = [l for l in loops(rm) if rm.pos_of(i) is not None and rm.pos_of(i)[0] in l["body"] and l["stmt"] != O["stmt"]]
+        if len(a) >= 2:
+            ctx.ok("remove:every-tagged-drop-in-erased", "value-shape", rm.loc(i), "a range of drop-ins is erased (its bounds are judged by remove:erase-tagged-range)")
+        else:
+            ctx.check(bool(inner), "remove:every-tagged-drop-in-erased", "value-shape", rm.loc(i),
+                      "single-element erase inside a loop over the base's drop-ins",
+                      "removeDropInConfig erases ONE drop-in (%s) per base: a drop-in file with several rulesets for the same base keeps all but the first "
+                      "active after it was deleted, and every rewrite leaves a stale copy behind" % Xr(a[0])[:100] if a else "?")
+
+
 def run(ctx):
     from .C02 import disabled_does_nothing
     disabled_does_nothing(ctx)
@@ -150,6 +181,7 @@ def run(ctx):
         ei = [i for i in rm.calls("erase_if", "std::erase_if") if rm.nodes[i].get("args") and "dropins" in rm.text(rm.nodes[i]["args"][0])]
         ctx.counters["remove_effects"] = len(un) + len(stat) + len(er) + len(ei)
         ctx.floor("remove_effects", 3, "erase / markDropInUntargeted / incrementStat in removeDropInConfig")
+        tagged_dropins_all_erased(ctx)
         # the local counting the drop-ins erased from this base, whatever it is called
         cand = [nm_ for nm_ in locals_receiving(rm, r"dropins") if re.search(r"remove_if\(|erase_if\(", Xr(local_init(rm, nm_, must=False)[0]) if local_init(rm, nm_, must=False)[1] else "")
                 and not re.match(r"^std::remove_if\(", Xr(local_init(rm, nm_, must=False)[0]))]
